@@ -737,6 +737,27 @@ def classification(ctx):
     ctx.floor('C04.7', 3)
 
 
+def _from_template(m, expr, depth=0):
+    """does the offset expression derive from the header-word template (whose FileOffset values locate the footer
+    arrays): it mentions the template, a name bound to an element of it, or the value variable of a loop over its items
+    (directly or through a copy)."""
+    if depth > 3:
+        return False
+    if 'segy_traceheader_template' in U(expr):
+        return True
+    for x in ast.walk(expr):
+        if not isinstance(x, ast.Name):
+            continue
+        for n in ast.walk(m.node):
+            if isinstance(n, ast.Assign) and len(n.targets) == 1 and U(n.targets[0]) == x.id and n.value is not expr and \
+                    not any(y is expr for y in ast.walk(n.value)) and _from_template(m, n.value, depth + 1):
+                return True
+            if isinstance(n, ast.For) and any(isinstance(t, ast.Name) and t.id == x.id for t in ast.walk(n.target)) and \
+                    _from_template(m, n.iter, depth + 1):
+                return True
+    return False
+
+
 def footer_decode(ctx):
     """C04.9: footer arrays hold little-endian signed 32-bit integers (C04.1).  Every decode of bytes fetched from a
     footer array - a range read whose offset derives from a FileOffset of the header-word template - uses a signed
@@ -752,8 +773,7 @@ def footer_decode(ctx):
         for call in ast.walk(m.node):
             if not (isinstance(call, ast.Call) and U(call.func).endswith('read_range') and len(call.args) >= 3):
                 continue
-            off = U(call.args[1])
-            if not ('template' in off or off.split(' ')[0] in ('v', 'offset')):
+            if not _from_template(m, call.args[1]):
                 continue
             # where do the bytes go?
             par = parent(call)
